@@ -160,7 +160,9 @@ pub fn eval(case: &J) -> Outcome {
                     // builder-made extra columns come after the query's own: compare those the reference has
                     let width = b.1.first().map(|r| r.len()).unwrap_or(usize::MAX);
                     let a = (a.0, a.1.into_iter().map(|r| r.into_iter().take(width).collect::<Vec<_>>()).collect::<Vec<_>>());
-                    if rows_key(&a.1, ord) != rows_key(&b.1, ord) { out.fail(&format!("C17/dialect/sqlite/different-rows/{}", if sql.contains("log2(") || sql.contains("log10(") { "log-base-inverted" } else if sql.contains("tan(") { "division-by-null-is-zero" } else { shape }), format!("{sql}: {text} returns {:?}, reference {:?}", a.1.iter().take(4).collect::<Vec<_>>(), b.1.iter().take(4).collect::<Vec<_>>())); } else { out.tag("sqlite-executed"); } }
+                    if rows_key(&a.1, ord) != rows_key(&b.1, ord) { out.fail(&format!("C17/dialect/sqlite/different-rows/{}", if sql.contains("log2(") || sql.contains("log10(") { "log-base-inverted" } else if sql.contains("tan(") { "division-by-null-is-zero" }
+                        // stock SQLite folds ASCII letters only: UPPER / LOWER of a text with other letters differs from the reference
+                        else if (sql.contains("upper(") || sql.contains("lower(")) && a.1.iter().chain(b.1.iter()).any(|r| r.iter().any(|c| matches!(c, Cell::Text(t) if !t.is_ascii()))) { "upper-lower-of-non-ascii" } else { shape }), format!("{sql}: {text} returns {:?}, reference {:?}", a.1.iter().take(4).collect::<Vec<_>>(), b.1.iter().take(4).collect::<Vec<_>>())); } else { out.tag("sqlite-executed"); } }
                 (Err(e), _) => out.fail(&format!("C17/dialect/sqlite/not-executable/{}", if e.contains("duplicate WITH table name") { duplicate_cte_class(&text) } else { sqlite_feature(&text) }), format!("{sql}: rendered for SQLite as {text}: {e}")),
                 _ => {}
             }
